@@ -1,6 +1,5 @@
 (* C19 model: every modelled mutator is an ordered list of checks followed by the
-   commit (qube.py __iadd__/__isub__/__imul__, indexer.py __setitem__ general and
-   whole-object paths). A check names the fault class it detects and the exception
+   commit (qube.py __iadd__/__isub__/__imul__, indexer.py __setitem__ general path). A check names the fault class it detects and the exception
    it raises. Running a mutator on a set of faults stops at the first check that
    fires; only a run that passes every check commits.  Proof-free. *)
 From Coq Require Import List Bool.
@@ -9,7 +8,7 @@ Import ListNotations.
 Inductive fault := FReadonly | FType | FUnits | FNumer | FDenom | FKind | FShape | FDerivDenom
                  | FAlways.   (* the combination itself is unsupported (e.g. Vector += number) *)
 Inductive err := ValueErr | TypeErr | IndexErr | OtherErr.
-Inductive opfam := OAdd | OMul | OSet | OSetMask | OSetAll.
+Inductive opfam := OAdd | OMul | OSet | OSetMask.
 Inductive argform := ANumber | ANdarray | AObject.
 Inductive tkind := TScalarF | TScalarI | TScalarU | TScalarD | TVector.
 Inductive obsv := OOk | OErr (e : err) (changed : bool).
@@ -59,12 +58,6 @@ Definition checks (o : opfam) (a : argform) (t : tkind) : list (fault * err) :=
       (* NumPy rejects a value with extra axes under a boolean index with TypeError *)
       [(FReadonly, ValueErr); (FType, TypeErr); (FNumer, ValueErr); (FDerivDenom, ValueErr);
        (FDenom, if is_vector t then ValueErr else TypeErr); (FShape, ValueErr)]
-  | OSetAll, ANumber =>
-      if is_vector t then [(FReadonly, ValueErr); (FType, TypeErr); (FAlways, ValueErr)]
-      else [(FReadonly, ValueErr); (FType, TypeErr)]
-  | OSetAll, ANdarray => [(FReadonly, ValueErr); (FType, TypeErr); (FShape, ValueErr)]
-  | OSetAll, AObject =>
-      [(FReadonly, ValueErr); (FType, TypeErr); (FNumer, ValueErr); (FDenom, ValueErr); (FShape, ValueErr)]
   end.
 
 (* a mutator as a program: checks, then the commit of the target's components *)
